@@ -10,6 +10,7 @@ import (
 func TestVerif(t *testing.T) {
 	kernel.WorkerMain(t, map[string]kernel.Property{
 		"C06": C06{},
+		"C07": C07{},
 		"C08": C08{},
 		"C17": C17{},
 	})
